@@ -76,6 +76,11 @@ def _alphabets(key, new):
     alpha = tuple(plain_alphabet(ec))
     esc = ec['ESCAPE']
     escs = tuple(esc + l + esc for l in ('HNFSTRE' + ('L' if new else '')))
+    act = active_chars(ec)
+    if not (esc.isalnum() or esc in '.+- '):
+        # the standard's other sequences (hexadecimal, local, character set, formatting), where no active character is inside
+        escs += tuple(esc + o + esc for o in ('X0D0A', 'X41', 'Z12', 'C2842', 'M2842AB', '.br', '.sp 2', '.in+4', '.fi')
+                      if not act.intersection(o))
     return alpha, alpha + (' ',), escs
 
 
